@@ -86,7 +86,7 @@ func cmdFn(args []string) {
 					continue
 				}
 			}
-			if o.Result == want {
+			if o.Result == want || (o.IsCover && o.Result != "unsat") {
 				nok++
 				if *verbose {
 					fmt.Printf("  ok   %-70s %s %dms\n", o.Name, o.Solver, o.Ms)
